@@ -138,6 +138,19 @@ class Engine:
             goal = BoolVal(False)
         self.obligations.append(Obligation(f'{self.where}/{kind}.{name}', list(p.pc), goal, kind, self.where, path=p))
 
+    def add_obligation(self, name, pc, goal, kind, path=None, opts=None):
+        """opts: lemmas (names of contract lemmas to use), defs (definitions of fresh skolem constants, added as hypotheses),
+        hints (intermediate facts: each is first proved as its own obligation, then used as a hypothesis)"""
+        opts = opts or {}
+        pc = list(pc) + list(opts.get('defs', []))
+        hints = list(opts.get('hints', []))
+        for hi, h in enumerate(hints):
+            ob = Obligation(f'{name}.hint{hi}', pc, h, kind, self.where, path=path, extra={'lemmas': opts.get('hint_lemmas')})
+            self.obligations.append(ob)
+        ob = Obligation(name, pc + hints, goal, kind, self.where, path=path, extra={'lemmas': opts.get('lemmas')})
+        self.obligations.append(ob)
+        return ob
+
     def feasible(self, pc):
         self.stats['prune_checks'] += 1
         s = Solver()
@@ -200,6 +213,10 @@ class Engine:
         if isinstance(x, SVal):
             self.oblige(p, f'type.{what}', V.is_VInt(x.t), 'type')
             return V.i(x.t)
+        if isinstance(x, Sentinel) or x is None:
+            # a type error at run time: this path must be unreachable
+            self.oblige(p, f'type.{what}.not_{"sentinel" if x is not None else "none"}', BoolVal(False), 'type')
+            return fresh('typeerror', IntSort())
         raise Unsupported(f'to_int {x!r}')
 
     def to_key(self, p, x):
